@@ -31,13 +31,23 @@ Proof.
   rewrite H3. apply eff_cancelled_self; [lia|exact H1].
 Qed.
 
-(* C02: when the task_done callback of a member routes a (non-cancellation) exception to the group, the group's
-   cancel scope is effectively cancelled at the end of that callback *)
+Lemma cancel_own_eff s5 g : 1 <= nscope s5 ->
+  let r := scope_cancel s5 (g_scope (groups s5 g)) false in
+  s_cancelled (scopes r (g_scope (groups r g))) = true /\ eff_cancelled r (g_scope (groups r g)) = true.
+Proof.
+  intros Hn. cbn zeta.
+  destruct (cancelled_after_scope_cancel s5 (g_scope (groups s5 g)) false) as [H1 [H2 H3]].
+  rewrite H3. split; [exact H1|]. apply eff_cancelled_self; [lia|exact H1].
+Qed.
+
+(* C02 (F23): when the task_done callback of a member routes a (non-cancellation) exception to the group, the
+   group's OWN cancel scope is cancelled (cancel() has been called on it) at the end of that callback - whatever
+   the state of the enclosing scopes - and hence it is effectively cancelled *)
 Theorem first_failure_cancels_group s t g : reach s -> In (HTaskDone t) (ready s) ->
   k_group (tasks s t) = Some g ->
   let s' := fst (step s (ARun (HTaskDone t))) in
   g_excs (groups s' g) <> g_excs (groups s g) ->
-  eff_cancelled s' (g_scope (groups s' g)) = true.
+  s_cancelled (scopes s' (g_scope (groups s' g))) = true /\ eff_cancelled s' (g_scope (groups s' g)) = true.
 Proof.
   intros R Hin Hg. cbn zeta. pose proof (reach_inv s R) as [M0 _].
   assert (Hn : 1 <= nscope s) by (apply (c_n s (m_c s M0))).
@@ -61,7 +71,8 @@ Proof.
   { unfold s4. destruct (g_fut (groups s3 g)); [|auto]. destruct (g_tasks (groups s3 g)); [|auto].
     rewrite fc_groups, fc_nscope. auto. }
   destruct E4 as [E4 N4].
-  assert (Hsame : forall r, groups r = groups s4 -> g_excs (groups r g) <> g_excs (groups s0 g) -> eff_cancelled r (g_scope (groups r g)) = true).
+  assert (Hsame : forall r, groups r = groups s4 -> g_excs (groups r g) <> g_excs (groups s0 g) ->
+            s_cancelled (scopes r (g_scope (groups r g))) = true /\ eff_cancelled r (g_scope (groups r g)) = true).
   { intros r Hr Hne. exfalso. apply Hne. now rewrite Hr, E4. }
   assert (Hc : forall s5, groups (if eff_cancelled s5 (g_scope (groups s5 g)) then s5
                                  else scope_cancel s5 (g_scope (groups s5 g)) false) = groups s5).
@@ -73,17 +84,17 @@ Proof.
   - destruct (k_startfut (tasks s0 t)) as [f|].
     + destruct (f_st (futs s4 f)).
       * apply Hsame. now rewrite fc_groups.
-      * destruct (is_cancel e); [apply Hsame; apply Hc|]. intros _. apply cancel_end_eff, Happ.
-      * destruct (is_cancel e); [apply Hsame; apply Hc|]. intros _. apply cancel_end_eff, Happ.
-      * destruct (is_cancel e); [apply Hsame; reflexivity|]. intros _. apply cancel_end_eff, Happ.
-    + destruct (is_cancel e); [apply Hsame; apply Hc|]. intros _. apply cancel_end_eff, Happ.
+      * destruct (is_cancel e); [apply Hsame; apply Hc|]. intros _. apply cancel_own_eff, Happ.
+      * destruct (is_cancel e); [apply Hsame; apply Hc|]. intros _. apply cancel_own_eff, Happ.
+      * destruct (is_cancel e); [apply Hsame; reflexivity|]. intros _. apply cancel_own_eff, Happ.
+    + destruct (is_cancel e); [apply Hsame; apply Hc|]. intros _. apply cancel_own_eff, Happ.
   - destruct (k_startfut (tasks s0 t)) as [f|].
     + destruct (f_st (futs s4 f)).
       * apply Hsame. now rewrite fc_groups.
-      * destruct (is_cancel e); [apply Hsame; apply Hc|]. intros _. apply cancel_end_eff, Happ.
-      * destruct (is_cancel e); [apply Hsame; apply Hc|]. intros _. apply cancel_end_eff, Happ.
-      * destruct (is_cancel e); [apply Hsame; reflexivity|]. intros _. apply cancel_end_eff, Happ.
-    + destruct (is_cancel e); [apply Hsame; apply Hc|]. intros _. apply cancel_end_eff, Happ.
+      * destruct (is_cancel e); [apply Hsame; apply Hc|]. intros _. apply cancel_own_eff, Happ.
+      * destruct (is_cancel e); [apply Hsame; apply Hc|]. intros _. apply cancel_own_eff, Happ.
+      * destruct (is_cancel e); [apply Hsame; reflexivity|]. intros _. apply cancel_own_eff, Happ.
+    + destruct (is_cancel e); [apply Hsame; apply Hc|]. intros _. apply cancel_own_eff, Happ.
   - destruct (k_startfut (tasks s0 t)) as [f|]; [|apply Hsame; reflexivity].
     destruct (f_st (futs s4 f)); apply Hsame; rewrite ?fc_groups; reflexivity.
 Qed.
